@@ -2,7 +2,7 @@
 SPECIFICATION Spec
 CONSTANTS Family = "clique"
           Epoch = 4
-          CliqueFixed = FALSE
+          CliqueFixed = TRUE
           Sets <- SetsC
           GenesisSigner = "c"
           G0 = 200
@@ -14,9 +14,8 @@ CONSTANTS Family = "clique"
           EmitOn = TRUE
           TraceLen = 0
 VIEW View
-\* PropC29 is not an invariant of this model: the code stores headers sealed by non-signers (finding, see known/C29.json);
-\* the monitor clauses are evaluated edge by edge on the real code instead.
-INVARIANT PropCanon
+\* CliqueFixed = FALSE reproduces the two deviations repaired in /repo by the commits 6966a3f and e66d2a4 (then PropC29 is violated in the model)
+INVARIANT PropC29
 INVARIANT ModelSane
 INVARIANT ModelEquiv
 CHECK_DEADLOCK FALSE
